@@ -169,7 +169,19 @@ theorem evaluate_const_valC (lk : Bytes → Lookup) (isReg : Bytes → Bool) (ρ
       obtain ⟨c, hc⟩ := afterRaw_ok he
       simp only [simplifyRaw] at hc
       split at hc
-      · simp at hc
+      · rename_i l r
+        have hv' := ((evaluate_inv_both lk isReg).1 a).2 e1 _ h1
+        obtain ⟨n1, n2, n3⟩ := nb_bin.1 hv'
+        have hb : nb (.bin .sub r l) = true := nb_bin.2 ⟨n2, n1, fun ⟨x, y⟩ => n3 ⟨y, x⟩⟩
+        cases hn : neutralizeRaw (.bin .sub r l) with
+        | ok pr =>
+          obtain ⟨c1, y⟩ := pr
+          simp only [hn, Res.ok.injEq, Prod.mk.injEq] at hc
+          obtain ⟨_, rfl⟩ := hc
+          have := (neutralizeRaw_nb hb hn).2
+          simp [isC, cval] at this
+        | err e => simp [hn] at hc
+        | panic => simp [hn] at hc
       · rename_i x
         split at hc
         · simp at hc
